@@ -13,9 +13,12 @@ META = {
         "table is_human_readable() ? serialize_str(text produced by store_into_str_bytes(.., WithVersion) into a "
         "[u8; LEN_IN_STR] buffer) : serialize_bytes(bytes produced by store_into_bytes into a [u8; SIZE_IN_BYTES] buffer); "
         "Deserialize dispatches to deserialize_str/string with the string visitor or deserialize_bytes/byte_buf with the "
-        "bytes visitor; the string visitor is from_str_bytes(v, None) with the parser error mapped to a serde error; the "
-        "bytes visitor rejects any length other than SIZE_IN_BYTES with invalid_length and otherwise passes the result of "
-        "TryFrom<&[u8]> through with its error mapped; neither visitor overrides any other visit_* method; and every "
+        "bytes visitor; the two visitors are decided by abstract evaluation of their MIR (whatever the spelling: combinators, "
+        "match, `?`): with the crate parser's outcome an opaque Ok(h) / Err(e), the string visitor returns Ok(h) / "
+        "Err(custom(e)) of from_str_bytes(v, None); the bytes visitor, for input length SIZE_IN_BYTES, SIZE_IN_BYTES-1, "
+        "SIZE_IN_BYTES+1 and 0, returns Err(invalid_length(len, ..)) unless the length is exactly SIZE_IN_BYTES and "
+        "otherwise the array parser's Ok(h) / Err(custom(e)) (the slice parser TryFrom<&[u8]> is evaluated through); "
+        "neither visitor overrides any other visit_* method; and every "
         "unwrap/expect/panic/index reachable from Deserialize::deserialize or a visitor is discharged (an unwrap of a "
         "parse result that can fail in this configuration is a violation -- this rule found the repaired defect F1)."
     ),
@@ -23,7 +26,7 @@ META = {
     "assumptions": [],
     "not_decided": ["behaviour of third-party format crates"],
 }
-TECHNIQUE = "decision tables over MIR paths, unwrap-on-fallible rule over the call graph"
+TECHNIQUE = "decision tables over MIR paths, abstract evaluation of the visitor bodies on opaque parser outcomes, unwrap-on-fallible rule over the call graph"
 
 
 def run(ctx, FS):
